@@ -218,12 +218,12 @@ pub fn parse_create_table(
                     break;
                 }
                 Keyword::CLONE => {
-                    let clone = parser.parse_object_name(false).ok();
+                    let clone = Some(parser.parse_object_name(false)?);
                     builder = builder.clone_clause(clone);
                     break;
                 }
                 Keyword::LIKE => {
-                    let like = parser.parse_object_name(false).ok();
+                    let like = Some(parser.parse_object_name(false)?);
                     builder = builder.like(like);
                     break;
                 }
